@@ -144,49 +144,68 @@ def run_case(case):
     return mon.result(nontrivial=st["nontrivial"], summary=summary)
 
 
+class EqSource(event.Source):
+    """A project's own source class with value equality (two UARTs' "rx" events compare equal): event maps
+    identify sources by identity."""
+    def __init__(self, label, **kw):
+        super().__init__(**kw)
+        self.label = label
+
+    def __eq__(self, other):
+        return isinstance(other, EqSource) and other.label == self.label
+
+    def __hash__(self):
+        return hash(self.label)
+
+
 def run_api(case, rng):
     mon = Mon()
-    emap = event.EventMap()
-    pool = [event.Source(trigger=rng.choice(["level", "rise", "fall"]), path=(f"p{i}",)) for i in range(6)]
-    model = []          # indices into pool, first-add order
-    frozen = False
+    # several live maps over one pool of sources (a peripheral's own map, a SoC-level map merged from it, a
+    # descriptive subset): a source may sit in more than one, at different positions
+    nmaps = rng.choice([1, 2, 2, 3])
+    emaps = [event.EventMap() for _ in range(nmaps)]
+    pool = [event.Source(trigger=rng.choice(["level", "rise", "fall"]), path=(f"p{i}",)) for i in range(5)]
+    pool += [EqSource(rng.choice(["rx", "tx"]), trigger=rng.choice(["level", "rise"]), path=(f"e{i}",)) for i in range(3)]
+    models = [[] for _ in range(nmaps)]          # per map: indices into pool, first-add order
+    frozen = [False] * nmaps
     hist = []
     st = {"repeat_then_index": False, "had_repeat": False}
 
-    def snapshot():
-        return [(id(a), b) for a, b in emap.sources()], emap.size
+    def snapshot(k):
+        return [(id(a), b) for a, b in emaps[k].sources()], emaps[k].size
 
     def history():
-        nonlocal frozen
         for step in range(case["steps"]):
             mon.cycle = step
+            k = rng.randrange(nmaps)
+            emap, model = emaps[k], models[k]
             op = rng.choice(["add", "add", "add", "index", "sources", "freeze" if rng.random() < 0.2 else "add",
                              "add_bad", "index_bad"])
-            before = snapshot()
+            before = snapshot(k)
             if op == "add":
                 j = rng.randrange(len(pool))
-                hist.append(("add", j))
+                hist.append(("add", k, j))
                 mon.log(hist[-1])
                 try:
                     emap.add(pool[j])
                     raised = None
                 except Exception as e:
                     raised = e
-                if frozen:
+                if frozen[k]:
                     if j not in model:
                         mon.ok("api_frozen", isinstance(raised, ValueError),
                                f"add of a new source after freeze must raise ValueError, got {raised!r}")
-                    mon.eq("api_atomic", snapshot(), before, "add after freeze changed the map")
+                    mon.eq("api_atomic", snapshot(k), before, "add after freeze changed the map")
                 else:
                     mon.ok("api_add", raised is None, f"add raised {raised!r}")
                     if j in model:
                         st["had_repeat"] = True
-                        mon.eq("api_atomic", snapshot(), before, "repeated add changed the map")
+                        mon.eq("api_atomic", snapshot(k), before, "repeated add changed the map")
                     else:
                         model.append(j)
             elif op == "add_bad":
                 bad = rng.choice([None, 1, "x", object()])
-                hist.append(("add_bad", repr(bad)[:20]))
+                hist.append(("add_bad", k, repr(bad)[:20]))
                 try:
                     emap.add(bad)
                     raised = None
@@ -194,16 +213,16 @@ def run_api(case, rng):
                     raised = e
                 mon.ok("api_refusal", isinstance(raised, (TypeError, ValueError)),
                        f"add({bad!r}) must be refused, got {raised!r}")
-                mon.eq("api_atomic", snapshot(), before, "refused add changed the map")
+                mon.eq("api_atomic", snapshot(k), before, "refused add changed the map")
             elif op == "index":
                 j = rng.randrange(len(pool))
-                hist.append(("index", j))
+                hist.append(("index", k, j))
                 try:
                     got = emap.index(pool[j])
                 except KeyError:
                     got = KeyError
                 exp = model.index(j) if j in model else KeyError
-                mon.eq("api_index", got, exp, f"index(p{j})")
+                mon.eq("api_index", got, exp, f"map {k}: index(pool[{j}])")
                 if st["had_repeat"]:
                     st["repeat_then_index"] = True
             elif op == "index_bad":
@@ -214,16 +233,18 @@ def run_api(case, rng):
                     raised = e
                 mon.ok("api_refusal", isinstance(raised, TypeError), f"index('nope') got {raised!r}")
             elif op == "freeze":
-                hist.append(("freeze",))
+                hist.append(("freeze", k))
                 emap.freeze()
-                frozen = True
-            # after every call: all queries against the model
-            mon.eq("api_sources", snapshot(), ([(id(pool[j]), k) for k, j in enumerate(model)], len(model)),
-                   "sources()/size after " + repr(hist[-1:] or op))
+                frozen[k] = True
+            # after every call: all queries of EVERY live map against its model
+            for q in range(nmaps):
+                mon.eq("api_sources", snapshot(q), ([(id(pool[j]), i_) for i_, j in enumerate(models[q])], len(models[q])),
+                       f"sources()/size of map {q} after " + repr(hist[-1:] or op))
 
     mon.run(history)
     mon.count("api_calls", case["steps"])
-    summary = {"kind": "api", "history": hist[:60]}
+    mon.bin("live_event_maps", nmaps)
+    summary = {"kind": "api", "maps": nmaps, "history": hist[:60]}
     return mon.result(nontrivial=st["repeat_then_index"], summary=summary)
 
 
